@@ -989,7 +989,10 @@ impl CodegenContext {
             } => {
                 if let Some(loop_count) = self.evaluate_expression_as_i64(expr, true)? {
                     for index in 0..loop_count {
-                        self.with_scope(loop_scope, Some(block), |s| {
+                        // Every iteration has a scope of its own, just like the copies of the body would have when they were
+                        // written out: the '-' and '+' of the block (and any label in it) belong to one iteration
+                        let iteration_scope = Identifier::new(format!("{}_{}", loop_scope, index));
+                        self.with_scope(&iteration_scope, Some(block), |s| {
                             s.add_symbol(
                                 "index",
                                 s.symbol(expr.span, index, SymbolType::Constant),
@@ -1319,26 +1322,31 @@ impl CodegenContext {
         self.current_scope_nx = self
             .symbols
             .ensure_index(self.symbols.root, &self.current_scope);
+        let mut result = Ok(());
         if let Some(span) = add_symbols_for_block.map(|b| b.lparen.span) {
-            self.try_current_target_pc().map(|pc| {
-                self.add_symbol("-", self.symbol(span, pc.as_i64(), SymbolType::Constant))
-            });
+            if let Some(pc) = self.try_current_target_pc() {
+                let start = self.symbol(span, pc.as_i64(), SymbolType::Constant);
+                result = self.add_symbol("-", start).map(|_| ());
+            }
         }
         log::trace!(
             "Entering scope: {} ({:?})",
             self.current_scope,
             self.current_scope_nx
         );
-        let result = f(self);
+        if result.is_ok() {
+            result = f(self);
+        }
         log::trace!(
             "Leaving scope: {} ({:?})",
             self.current_scope,
             self.current_scope_nx
         );
         if let Some(span) = add_symbols_for_block.map(|b| b.rparen.span) {
-            self.try_current_target_pc().map(|pc| {
-                self.add_symbol("+", self.symbol(span, pc.as_i64(), SymbolType::Constant))
-            });
+            if let (Some(pc), true) = (self.try_current_target_pc(), result.is_ok()) {
+                let end = self.symbol(span, pc.as_i64(), SymbolType::Constant);
+                result = self.add_symbol("+", end).map(|_| ());
+            }
         }
         self.current_scope_nx = old_scope_nx;
         self.current_scope.pop();
